@@ -307,6 +307,13 @@ example : grantsOf [.want 1, .got 1, .want 2, .want 3, .want 4, .unwait 3, .rel 
 section Multi
 open Gallia.ClientMulti hiding Inv accept_append
 
+/-- **the programs of gallia's callers are lock-bracketed**: a system whose tasks are callers of `request()` (`requestX`
+    over any configuration and script: retries, responsePending polls, backoff, reconnects included), callers of
+    `reconnect()`, tester-present workers, and tasks performing any sequence of such calls, sleeps,
+    `start_cyclic_tester_present` / `stop_cyclic_tester_present` (a scanner's main task, `wait_for_ecu`) satisfies the
+    hypothesis `WF P` of every theorem below -/
+theorem callers_are_bracketed (P : Progs) (h : ∀ t, RealProg (P t)) : WF P := real_wf P h
+
 /-- **refinement**: whatever the scheduler does, the events of the operational model (tasks running their programs
     against an owner-less lock) form a trace the lock-discipline acceptor accepts, ending in the model's lock state -
     so every theorem about accepted traces above holds for the runs of the operational model -/
